@@ -83,6 +83,10 @@ BEHAVIOUR = [
     ("star-args-forwarding", "def g(*a, **k):\n    return a, sorted(k.items())\ndef f(x, /, y, *a, z=1, **k):\n    return g(x, y, *a, z=z, **k)\nprint(f(1, 2, 3, 4, z=5, w=6))\n"),
     ("method-signature", "class A:\n    def m(self, a, /, b=2, *c, d, e=5, **f):\n        return (a, b, c, d, e, f)\nprint(A().m(1, d=4), A().m(1, 2, 3, d=4, g=7))\n"),
     ("recursion-default", "def fact(n, acc=1):\n    if n <= 1:\n        return acc\n    return fact(n - 1, acc * n)\nprint(fact(6))\n"),
+    ("kwonly-default-class-var", "class A:\n    base = 5\n    def m(self, *, k=base, j=base + 1):\n        return (k, j)\nprint(A().m(), A().m(k=1))\n"),
+    ("kwonly-default-captured", "def outer(x):\n    def inner(*, k=x):\n        return k\n    def cap():\n        return x\n    x = x + 1\n    return inner(), cap()\nprint(outer(1))\n"),
+    ("posonly-default-captured", "def outer(x):\n    def inner(a=x, /, b=x * 2):\n        return (a, b)\n    def cap():\n        return x\n    return inner(), cap()\nprint(outer(3))\n"),
+    ("kwonly-hole", "def f(*, a=1, b, c=3):\n    return (a, b, c)\nprint(f(b=2), f(a=0, b=5, c=9))\n"),
     ("lambda-signature", "f = lambda a, /, b=2, *c, d, e=5, **k: (a, b, c, d, e, k)\nprint(f(1, d=4), f(1, 2, 3, d=4, z=9))\n"),
 ]
 
